@@ -48,6 +48,17 @@ RePush(b) ==
   /\ Log([op |-> "repush", b |-> b, res |-> "-"]) /\ UNCHANGED sv
   /\ eres' = (IF Height(b) < insH \/ b = insB THEN "forbidden" ELSE "ok") /\ todo' = <<>> /\ UNCHANGED <<insH, insB>>
 
+(* A mining round in which the consensus asks for a truncation first (ProcessBeforeMiner returns a target d on the main
+   chain): Miner.truncateForMiner walks the state to d WITHOUT the prune flag (the irreversible height is not crossed: then
+   the round fails and nothing is truncated), truncates the ledger to d and the round goes on: it mines on d.  The blocks
+   above d are gone afterwards, so generators produce this step last in a behaviour.  txs / P: the packed transactions
+   and the pool after the walk when they were observed (trace validation), else <<"*">> / {"*"}. *)
+ETruncBegin(d, txs, P) ==
+  /\ eres = "" /\ ptr = ltip /\ d \in Anc(ltip) \ {ltip}
+  /\ Log([op |-> "minetrunc", d |-> d, res |-> "-"]) /\ UNCHANGED sv /\ UNCHANGED <<insH, insB>>
+  /\ eres' = "ok"
+  /\ todo' = <<[op |-> "twalk", d |-> d, P |-> P], [op |-> "ttrunc", d |-> d], [op |-> "tmine", txs |-> txs]>>
+
 LastRes == hist'[Len(hist')].res
 Micro ==
   /\ eres # "" /\ todo # <<>>
@@ -65,6 +76,16 @@ Micro ==
             /\ IF LastRes = "ok" THEN /\ todo' = Tail(todo) /\ UNCHANGED <<insH, eres>>
                                      /\ insB' = IF Len(todo) = 2 /\ eres = "ok" THEN n' ELSE insB    \* the target itself is stored
                ELSE todo' = <<[op |-> "sync"]>> /\ eres' = "error" /\ UNCHANGED <<insH, insB>>
+       [] m.op = "twalk" ->
+            /\ Walk(m.d, FALSE, m.P, <<>>) /\ UNCHANGED <<insH, insB>>
+            /\ IF LastRes = "ok" THEN todo' = Tail(todo) /\ UNCHANGED eres ELSE todo' = <<>> /\ eres' = "fail"
+       [] m.op = "ttrunc" ->
+            /\ ltip' = m.d /\ UNCHANGED <<blk, n, ptr, utxo, zu, zd, total, irr, pool, dev, applied, pruned>>
+            /\ Log([op |-> "truncate", d |-> m.d, res |-> "ok"])
+            /\ todo' = Tail(todo) /\ UNCHANGED <<insH, insB, eres>>
+       [] m.op = "tmine" ->
+            /\ Mine(IF m.txs # <<"*">> /\ Range(m.txs) \subseteq Packable /\ NoDupSeq(m.txs) THEN m.txs ELSE PrefixFits(GoodOrder(Packable)))
+            /\ todo' = Tail(todo) /\ UNCHANGED <<insH, insB, eres>>
        [] m.op = "sync" ->
             /\ IF ptr = ltip THEN UNCHANGED vars ELSE Walk(ltip, FALSE, {"*"}, <<>>)
             /\ todo' = Tail(todo) /\ UNCHANGED eres
